@@ -414,6 +414,9 @@ MUTATIONS = [
         json_data = convert_back_degree(json_data[TOPO_NMSP])
         json_data = remove_namespace_context(json_data, "gnpy-network-topology:")
 """)]},
+    {'id': 'c15-revert-transceiver-without-successor', 'props': ['C15'], 'tests': 'tests/test_spectrum_assignment.py',
+     'desc': 'revert of the fix: build_oms_list raises StopIteration for a transceiver without successor (one-directional line)',
+     'edits': [('gnpy/topology/spectrum_assignment.py', "next(network.successors(n), None), Roadm)]", "next(network.successors(n)), Roadm)]")]},
     {'id': 'c11-revert-explicit-ispart', 'props': ['C11'], 'tests': 'tests/test_path_computation_functions.py tests/test_disjunction.py',
      'desc': 'revert of fix e50d35fe: explicit route returned without checking the listed nodes are crossed in order',
      'edits': [('gnpy/topology/request.py', "    if total_path is not None and ispart(nodes_list, total_path):",
